@@ -104,6 +104,7 @@ type actState struct {
 	sawImplicit bool // an exception without marker may have passed through this activation (generator bodies driven by it)
 	openOp      int  // generator instance of a driver op in progress (0 none)
 	events      int  // number of located events seen so far
+	susp        bool // suspended at a yield while completions are pending: the next resumption may replace them unseen
 	drivers     map[int]int
 }
 
@@ -320,6 +321,36 @@ func escapes(p, q *pend) bool {
 	return false
 }
 
+// hasLeft: completion p was raised inside a finally block that belongs to q's cleanup, crosses out of it, and the event with
+// chain ec is already outside that block.
+func hasLeft(p, q *pend, ec []ctlref.Frame) bool {
+	for i := 0; i < p.upto && i < len(p.chain); i++ {
+		f := p.chain[i]
+		if f.N.Kind != ctlref.Try || f.Part != 3 {
+			continue
+		}
+		inQ := false
+		for j := 0; j < q.upto && j < len(q.chain); j++ {
+			if q.chain[j].N == f.N && q.chain[j].Part != 3 {
+				inQ = true
+			}
+		}
+		if !inQ {
+			continue
+		}
+		still := false
+		for _, fe := range ec {
+			if fe.N == f.N && fe.Part == 3 {
+				still = true
+			}
+		}
+		if !still {
+			return true
+		}
+	}
+	return false
+}
+
 func (m *tmon) newPend(kind byte, n *ctlref.Node, label string, final string) *pend {
 	chain := m.st.Chain[n.ID]
 	p := &pend{kind: kind, site: n.ID, chain: chain, final: final}
@@ -357,15 +388,20 @@ func (m *tmon) pushPend(a *actState, p *pend) {
 	if p == nil {
 		return
 	}
-	for len(a.pends) > 0 {
-		q := a.pends[len(a.pends)-1]
-		if escapes(p, q) {
-			a.pends = a.pends[:len(a.pends)-1] // a completion from finally overrides the pending one
-			continue
-		}
-		break
-	}
+	// Completions are stacked, not replaced: one raised inside a cleanup finally overrides the pending one only when
+	// it actually leaves that finally block (popArrived); if it is stopped inside (e.g. overridden itself by a break
+	// that stays inside the block), the older one is still pending when the block ends.
 	a.pends = append(a.pends, p)
+}
+
+// popArrived removes the topmost pending completion, which reached its target, together with every older one whose
+// cleanup finally block it left on the way ("a completion from finally overrides the pending one").
+func (m *tmon) popArrived(a *actState) {
+	p := a.pends[len(a.pends)-1]
+	a.pends = a.pends[:len(a.pends)-1]
+	for len(a.pends) > 0 && escapes(p, a.pends[len(a.pends)-1]) {
+		a.pends = a.pends[:len(a.pends)-1]
+	}
 }
 
 func num(v int) string { return ctlref.Num(v).Render() }
@@ -427,7 +463,22 @@ func traceSpecMode(prog *ctlref.Program, log []string, final string, faulted boo
 			a.openOp = 0
 		}
 
+		// A generator that yields while completions are pending (yield inside a cleanup finally) may be resumed by return() /
+		// throw() of a consumer without any marker; only a plain resumption (Y-) keeps the pending completions.
+		if a.susp {
+			a.susp = false
+			if !(e.tag == "Y-" || e.tag == "Nv" || e.tag == "Nd") {
+				a.pends = nil
+			}
+		}
 		// ---- S4 pending completions ----
+		// override: a completion raised inside a cleanup finally of an older one has left that finally block (this event is
+		// outside it): the older one is gone
+		for i := len(a.pends) - 2; i >= 0; i-- {
+			if hasLeft(a.pends[i+1], a.pends[i], ec) {
+				a.pends = append(a.pends[:i], a.pends[i+1:]...)
+			}
+		}
 		for len(a.pends) > 0 {
 			p := a.pends[len(a.pends)-1]
 			if inCleanup(p, e, ec, en) {
@@ -437,8 +488,8 @@ func traceSpecMode(prog *ctlref.Program, log []string, final string, faulted boo
 				what := map[byte]string{'b': "break", 'c': "continue", 'r': "return", 't': "throw"}[p.kind]
 				m.fail(e, idx, "activation %d: %s raised at statement %d is pending, this event is neither part of its cleanup nor at its target (S4)", a.id, what, p.site)
 			}
-			// arrived (or lost): completions below it are re-evaluated against this event
-			a.pends = a.pends[:len(a.pends)-1]
+			// arrived (or lost): completions below it that it did not override are re-evaluated against this event
+			m.popArrived(a)
 		}
 
 		// ---- S1-S3 region stack ----
@@ -647,6 +698,7 @@ func traceSpecMode(prog *ctlref.Program, log []string, final string, faulted boo
 							p.tainted = yn.Iter.Gen > 0 || op == 2
 						}
 						xs.pends = append(xs.pends[:0], p)
+						xs.susp = false
 					}
 				}
 			}
@@ -662,6 +714,9 @@ func traceSpecMode(prog *ctlref.Program, log []string, final string, faulted boo
 			m.taint(a)
 		}
 		a.lastTag, a.lastSite = e.tag, en.ID
+		if (e.tag == "Y" || (en.Kind == ctlref.YieldStar && e.tag == "Nv")) && len(a.pends) > 0 {
+			a.susp = true
+		}
 		for i := range a.stack {
 			if f := &a.stack[i]; !f.try && f.isGen {
 				if x := m.acts[f.inst]; x != nil {
